@@ -20,7 +20,7 @@ PROPS = {
                              "kind:ts", "kind:cts-heavy", "kind:cts-light", "kind:fut-pool", "kind:fut-set", "kind:parfor", "kind:foreach", "kind:pinvoke", "kind:then", "family:tree", "family:dag", "kind:cross-wait", "kind:sibling-future"],
         "assumptions": _A,
         "runs": {
-            "quick": [{"config": "plain", "shards": 16}, {"config": "tsan", "shards": 16, "args": {"n": 96}}],
+            "quick": [{"config": "plain", "shards": 16, "args": {"n": 256}}, {"config": "tsan", "shards": 16, "args": {"n": 64}}],
             "thorough": [{"config": "plain", "shards": 8, "seeds": 3}, {"config": "tsan", "shards": 8, "args": {"n": 1200}}],
         },
     },
@@ -35,13 +35,13 @@ PROPS = {
                              "pool0", "from-pool-task", "inline-fallback", "depth12", "cost:heavy", "cost:light"],
         "assumptions": _A,
         "runs": {
-            "quick": [{"config": "plain", "shards": 16}, {"config": "tsan", "shards": 16, "args": {"n": 128}}],
+            "quick": [{"config": "plain", "shards": 16, "args": {"n": 512}}, {"config": "tsan", "shards": 16, "args": {"n": 128}}],
             "thorough": [{"config": "plain", "shards": 16, "seeds": 3}, {"config": "tsan", "shards": 16, "args": {"n": 1500}}],
         },
     },
     "C46": {
         "level": "exploration",
-        "technique": "runtime monitoring: every body records its stack depth (stack top from pthread_getattr_np minus a local) and the number of monitored bodies nested below it on the same thread; each shape runs at sizes n and 8n; second oracle: the same shapes on 512 KiB thread stacks under ASan",
+        "technique": "runtime monitoring: every body records its stack depth (address of a local relative to the first monitored body the thread ever ran) and the number of monitored bodies nested below it on the same thread; each shape runs at sizes n and 8n; second oracle: the same shapes on 512 KiB thread stacks under ASan",
         "level_text": "Shapes: then-chains (continuations scheduled on a pool / TaskSet / ConcurrentTaskSet, deferred or async policy, fired from a worker or from an external thread), recursive ConcurrentTaskSet scheduling (schedule, scheduleBulk(1), binary fan-out; kHeavy/kLightweight), serial pipelines whose stage queues fill up, graph chains / combs / ladders on the ConcurrentTaskSetExecutor; pools 0..4, idle or with workers held and the pool over its load factor. Refuted if the maximum stack depth at 8n exceeds the one at n by more than 64 KiB, or any body runs deeper than 512 KiB of stack or below more than 80 nested monitored bodies (kMaxInlineDepth is 32); in that case the run is stopped before the stack overflows.",
         "level_note": "A constant bound cannot be observed directly; growth between n and 8n plus absolute caps far above the implementation's intended limit (32 nested inline runs) stand in for it.",
         "design_ref": "DESIGN.md §4 C46",
@@ -49,7 +49,7 @@ PROPS = {
         "required_classes": ["shape:then", "shape:ctsrec", "shape:pipe", "shape:graph", "pool0", "pool1", "poolN", "loaded", "from-worker", "nested-inline-seen", "depth-limit-reached"],
         "assumptions": _A,
         "runs": {
-            "quick": [{"config": "plain", "shards": 16}, {"config": "tsan", "shards": 16, "args": {"n": 64, "size": 150}}, {"config": "asan", "shards": 16, "args": {"n": 128, "smallstack": 1, "size": 200}}],
+            "quick": [{"config": "plain", "shards": 16, "args": {"n": 192}}, {"config": "tsan", "shards": 16, "args": {"n": 48, "size": 150}}, {"config": "asan", "shards": 16, "args": {"n": 96, "smallstack": 1, "size": 200}}],
             "thorough": [{"config": "plain", "shards": 16, "seeds": 2}, {"config": "tsan", "shards": 16, "args": {"n": 400, "size": 300}}, {"config": "asan", "shards": 16, "args": {"n": 1500, "smallstack": 1}}],
         },
     },
